@@ -319,7 +319,10 @@ theorem C14_binding_counterexample_reserved :
 
 /-- cli/generate.rs: the declaration file of `x.graphql` is `x.d.graphql.ts` (default mode), `x.graphql.d.ts` or, in
     standalone mode, the module `x.graphql.ts` that holds the values itself; only the standalone module carries
-    values, and a constant is `declare`d exactly when it is neither exported nor given a value. -/
+    values (`printValues`).  The three extension equations hold by `rfl` on `declExtension`, which restates
+    `generate.rs` (compared with the real CLI on the CLI sample of the correspondence check).  That a constant is
+    `declare`d exactly when it is neither exported nor given a value is how `typeVisitor` is DEFINED (compared by
+    the correspondence check), not a conclusion of this theorem. -/
 theorem C14_mode_extension (c : Config) :
     ((TypeOptions.fromConfig c).printValues = true ↔ c.mode = .standaloneTs4) ∧
     declExtension .withLoaderTs5 = "d.graphql.ts".toList ∧
